@@ -70,6 +70,17 @@ func init() {
 				}
 			}
 			add(qast.TreeUnits("tree|full|2|juxt", len(treeSet("full1")), 40), 3)
+			// unary chains of length <= 3 (4) as the left operand of a juxtaposition, in four contexts:
+			// this is where the number of pending reductions before the injected AND is largest
+			for i := range qast.LeavesSmall(4) {
+				for j := range qast.LeavesSmall(3) {
+					k := 3
+					if tier == "thorough" {
+						k = 4
+					}
+					us = append(us, core.Unit{Name: fmt.Sprintf("chainjuxt|%d|%d|%d", k, i, j), Weight: 2})
+				}
+			}
 			if tier == "thorough" {
 				add(qast.TreeUnits("tree|two|3|juxt", len(treeSet("two2")), 64), 4)
 				add(qast.TreeUnits("tree|three|3|juxt", len(treeSet("three2")), 120), 5)
@@ -82,7 +93,7 @@ func init() {
 		Run:    c07Run,
 		Eval:   c07Eval,
 		Shrink: c07Shrink,
-		Rule: "TREE(L_full,2) (thorough: + TREE(L_2,3), TREE(L_3,3)) and SPINE(m) over 2 leaves; for every tree every non-empty subset of its eligible AND nodes written as juxtaposition " +
+		Rule: "TREE(L_full,2) (thorough: + TREE(L_2,3), TREE(L_3,3)), SPINE(m) over 2 leaves and every unary chain of length <= 3/4 as left operand of a juxtaposition in five contexts; for every tree every non-empty subset of its eligible AND nodes written as juxtaposition " +
 			"(all subsets up to 4 AND nodes; beyond: all singletons, all co-singletons, all pairs and the full set); non-trivial = both texts parse; distinct = distinct trees",
 		Assumptions: []string{
 			"a gap is core iff the left operand ends and the right operand begins with a term token; other gaps may be rejected (counted as rejected_noncore)",
@@ -195,6 +206,20 @@ func c07Run(w *core.Worker, tier, unit string) {
 		for i := 2; i <= m; i++ {
 			qast.Spines(qast.LeavesSmall(2), i, do)
 		}
+	case strings.HasPrefix(unit, "chainjuxt|"):
+		p := strings.Split(unit, "|")
+		k, _ := strconv.Atoi(p[1])
+		i, _ := strconv.Atoi(p[2])
+		j, _ := strconv.Atoi(p[3])
+		a, b := qast.LeavesSmall(4)[i], qast.LeavesSmall(3)[j]
+		x := qast.Lf(qast.Leaf{Kind: qast.LEq, Field: "x", Val: qast.W("y")})
+		qast.Chains(a, k, func(c *qast.Node) {
+			do(qast.Bin(qast.OAnd, c, b))
+			do(qast.Bin(qast.OAnd, qast.Bin(qast.OAnd, x, c), b))
+			do(qast.Bin(qast.OOr, x, qast.Bin(qast.OAnd, c, b)))
+			do(qast.Bin(qast.OAnd, qast.Bin(qast.OAnd, c, b), x))
+			do(qast.Bin(qast.OAnd, c, qast.Bin(qast.OAnd, b, x)))
+		})
 	}
 }
 
